@@ -214,6 +214,9 @@ func genSeqPlan(r *rand.Rand, focus string) *ProxyPlan {
 			reqs[k].Range = []string{"bytes=0-4", "bytes=2-", "bytes=-3"}[r.IntN(3)]
 		}
 		retrySwitch = r.IntN(2) == 0
+		if r.IntN(3) == 0 {
+			p.MaxSize = int64(res.Size)/2 + 1 // the cache cannot take the representation: everything is relayed
+		}
 	}
 	if focus != "c06" && r.IntN(4) == 0 && len(reqs) >= 2 {
 		// the operator changes the cache policy while the proxy is running
